@@ -34,7 +34,7 @@ int main(void){ int i,j; of_rs_init();
  printf("static int of_rs_initialized = 1;\n#define of_generate_gf() ((void)0)\n#define of_rs_init_mul_table() ((void)0)\n"); return 0; }
 ''')
     exe = os.path.join(d, "gen")
-    r = core.sh(["gcc", "-w", "-O1", "-DOPENFEC_LITTLE_ENDIAN", "-DNDEBUG", "-I", os.path.join(core.REPO, "src"),
+    r = core.sh(["gcc", "-w", "-O1", "-DOPENFEC_LITTLE_ENDIAN", "-DNDEBUG"] + core.cfg_inc() + ["-I", os.path.join(core.REPO, "src"),
                  "-I", os.path.dirname(os.path.join(core.REPO, core.RS28_C)), gen, "-o", exe])
     if r.returncode != 0:
         raise RuntimeError("gf28 table generator build failed:\n" + r.stderr[-2000:])
